@@ -536,6 +536,9 @@ def run(ctx, rep):
     r10b(ctx, rep)
     r10d(ctx, rep)
     r10h(ctx, rep)
+    from . import C11
+    C11.r11g(ctx, rep, rule="R10i")
+    rep.rules["R10i"] = "what the printer writes can be sliced back out of the text: " + rep.rules["R10i"]
     from . import numeric
     numeric.r16e(ctx, rep, rule="R10f")
     from . import C18
